@@ -22,6 +22,16 @@ def M(id_, file, old, new, props):
 
 
 MUTANTS = [
+    M('setter-does-not-store', S, "        self._discard_exploration = discard_exploration\n",
+      "        pass\n", 'C12'),
+    M('proposals-not-counted', S, "        self.shell_n_sample[shell] += n_bound\n", "", 'C02'),
+    M('calls-not-counted', S, "        self.n_like += len(log_l)\n", "", 'C10'),
+    M('shell-count-not-refreshed', S, "        self.shell_n[index] = shell_n\n", "", 'C02'),
+    M('empty-shell-statistics-stale', S, "            self.shell_log_v[index] = -np.inf\n"
+      "            self.shell_log_l[index] = np.nan\n            self.shell_n_eff[index] = 0",
+      "            pass", 'C02'),
+    M('mean-likelihood-never-computed', S,
+      "            self.shell_log_l[index] = logsumexp(log_l) - np.log(shell_n)\n", "", 'C02'),
     M('first-blobs-not-stored', S, "            if self.blobs is None:\n                self.blobs = [blobs]\n            else:",
       "            if self.blobs is None:\n                pass\n            else:", 'C03'),
     M('update-without-resize', S,
